@@ -3,7 +3,7 @@
    requires and of the lines of its require blocks.  [render] gives the text, for every choice of
    indentation, separators, trailing blanks and trailing comments. *)
 From Coq Require Import ZArith.
-From VL Require Import Lib.Bytes.
+From VL Require Import Lib.Bytes Lib.Cst.
 
 Definition is_sp (c : N) : bool := (c =? 32) || (c =? 9).
 Definition is_vis (c : N) : bool := (33 <=? c) && (c <=? 126).            (* printable, not blank *)
@@ -73,3 +73,16 @@ Fixpoint file_ok (in_block : bool) (f : list gline) : bool :=
 
 Definition declared_go_mod (f : list gline) : list (bytes * bytes) :=
   flat_map (fun l => match l with LRequire _ _ m _ v _ => [(m, v)] | LSpec _ m _ v _ => [(m, v)] | _ => [] end) f.
+
+(* where each requirement's version text sits: line number, byte column and byte offsets in [render f] *)
+Definition line_len (l : gline) : N := blen (render_line l) + 1.
+Definition located_line (l : gline) (num : nat) (off : N) : list pkg :=
+  match l with
+  | LRequire ind sep1 m sep2 v _ =>
+      let c := blen ind + 7 + blen sep1 + blen m + blen sep2 in [mkPkg m v None (off + c) (off + c + blen v) (N.of_nat num) c None]
+  | LSpec ind m sep v _ =>
+      let c := blen ind + blen m + blen sep in [mkPkg m v None (off + c) (off + c + blen v) (N.of_nat num) c None]
+  | _ => []
+  end.
+Fixpoint located (f : list gline) (num : nat) (off : N) : list pkg :=
+  match f with [] => [] | l :: t => located_line l num off ++ located t (S num) (off + line_len l) end.
